@@ -34,6 +34,18 @@ CHECKS.update({
    text="Stateless schedule enumeration of N concurrent writers on one real store, each stepped through the points begin / after append / after head persisted / after view update: every interleaving for N=2 (and N=3 in thorough), deviation-bounded for N up to 8; each execution runs to completion, then the instance is closed, reopened on the same cache and loaded. Acknowledged calls must have returned pairwise distinct entries, each listed exactly once before and after the restart.",
    note="Trusted: sim environment (atomic durable cache puts); interleaving points are the H4 hooks, code between them runs freely.",
    tech="stateless model checking: exhaustive / deviation-bounded schedule enumeration of the real write path under a cooperative scheduler at hooked points"),
+ "C03": dict(cat="exploration", ref="5/C03",
+   text="Exhaustive enumeration of a finite case family on fresh worlds: write list x controller x route (local write, sync, topic, direct channel, ancestor behind an authorised colluder) x forging mode (five ways of faking the author fields, built from raw entry structs and signed with the attacker's keys) x position among honest heads. The forged entry must be absent from every victim log and view; the local write must fail and change nothing.",
+   note="Trusted: sim environment; which entries are genuinely authored is known by construction of each forging mode. Controllers with which no database can be built through the public API (simple via manifest, orbitdb) are recorded as skipped.",
+   tech="exhaustive enumeration of a finite adversarial input family against the real implementation (bounded exploration, no sampling)"),
+ "C10": dict(cat="model_checking", ref="5/C10",
+   text="For every rejected-head kind x valid-head shape x layout of the announcement(s) x route, every completion order of the victim's gated block fetches is enumerated (stateless schedule DFS), followed by an honest re-announcement and all its fetch orders; at quiescence every valid entry must be in the victim's log and view and no forbidden entry may be.",
+   note="Trusted: sim environment; fetches are the only interleaving points (each is a gate). Deviation bound 2 in quick, unbounded in thorough.",
+   tech="stateless schedule enumeration (fetch completion orders) of the real replication path under gated environment calls"),
+ "C11": dict(cat="model_checking", ref="5/C11",
+   text="A scripted sequence of Sync requests (1-2 cancellable, then a final uncancelled one) on a replica with replication concurrency 1, 2 and default; every block fetch and the replicator's schedule points are gated; all executions with a bounded number of deviations (cancel at this step, issue next request early, fail a fetch, release another goroutine first) run to quiescence; all entries reachable from the final heads must then be visible.",
+   note="Trusted: sim environment; hooks H2. One residual class is a recorded known finding (final request overlapping a not-yet-settled aborted request).",
+   tech="stateless deviation-bounded schedule enumeration with cancellation and fault injection at hooked schedule points"),
 })
 NOT_APPLICABLE = []
 ALL = ["C%02d" % i for i in range(1, 21)]
